@@ -221,7 +221,10 @@ func c31Name(names map[uint32]string, idx uint32) string {
 	return "gone"
 }
 
-func c31Wheel[T comparable](tw *TimerWheel[T], name func(T) string) string {
+func c31Wheel[T any](tw *TimerWheel[T], name func(T) string) string {
+	if name == nil {
+		name = func(T) string { return "item" }
+	}
 	var parts []string
 	for d := 0; d < tw.wheelLen; d++ {
 		slot := (tw.current + d) % tw.wheelLen
@@ -265,7 +268,7 @@ func (w *c31World) key() string {
 			fmt.Fprintf(&sb, "pend(ctr=%d ready=%v stored=%d)", hh.counter, hh.ready, len(hh.packetStore))
 		}
 		n.hm.RUnlock()
-		sb.WriteString(" hsw=" + c31Wheel(n.hm.OutboundHandshakeTimer.t, func(a netip.Addr) string { return "peer" }))
+		sb.WriteString(" hsw=" + c31Wheel(n.hm.OutboundHandshakeTimer.t, nil))
 		sb.WriteString(" cmw=" + c31Wheel(n.cm.trafficTimer.t, func(i uint32) string { return c31Name(names, i) }))
 		fmt.Fprintf(&sb, " swaps=%d}", w.swaps[n.spec.Name])
 	}
